@@ -42,5 +42,5 @@ pub mod future {
 }
 /// the REAL ntex_util::task::LocalWaker source (std-only file), copied verbatim from the cargo
 /// registry by weave.py - not a model.
-#[path = "../../../../build/weave/ntex_util_task.rs"]
+#[path = "../../../weave/ntex_util_task.rs"]
 pub mod task;
